@@ -10,6 +10,7 @@ package meta
 import (
 	"bytes"
 	"encoding/binary"
+	"encoding/json"
 	"errors"
 	"fmt"
 	"math/rand/v2"
@@ -25,6 +26,7 @@ import (
 	"github.com/nspcc-dev/bbolt"
 	"github.com/nspcc-dev/neofs-node/internal/verifkit"
 	"github.com/nspcc-dev/neofs-node/pkg/local_object_storage/blobstor/common"
+	apistatus "github.com/nspcc-dev/neofs-sdk-go/client/status"
 	cid "github.com/nspcc-dev/neofs-sdk-go/container/id"
 	"github.com/nspcc-dev/neofs-sdk-go/object"
 	oid "github.com/nspcc-dev/neofs-sdk-go/object/id"
@@ -59,61 +61,70 @@ func vf02ReadRaw(tx *bbolt.Tx) (map[cid.ID]*vf02RawCnr, error) {
 		}
 		var cnr cid.ID
 		copy(cnr[:], name[1:])
-		rc := &vf02RawCnr{objs: map[oid.ID]*vf02RawObj{}, garbage: map[oid.ID][]byte{}, counters: map[byte]uint64{}}
-		res[cnr] = rc
-		attrs := map[oid.ID]map[string][]byte{}
-		err := b.ForEach(func(k, v []byte) error {
-			if len(k) == 0 {
-				return nil
-			}
-			switch {
-			case k[0] == 0 && len(k) == 33:
-				var id oid.ID
-				copy(id[:], k[1:])
-				rc.objs[id] = &vf02RawObj{}
-			case k[0] == 3 && len(k) > 34:
-				var id oid.ID
-				copy(id[:], k[1:33])
-				a, val, ok := bytes.Cut(k[33:], []byte{0})
-				if !ok {
-					return fmt.Errorf("attribute key without delimiter: %x", k)
-				}
-				if attrs[id] == nil {
-					attrs[id] = map[string][]byte{}
-				}
-				attrs[id][string(a)] = bytes.Clone(val)
-			case k[0] == 4 && len(k) == 1:
-				rc.removed = true
-			case k[0] == 5 && len(k) == 33:
-				var id oid.ID
-				copy(id[:], k[1:])
-				rc.garbage[id] = bytes.Clone(v)
-			case k[0] >= 6 && k[0] <= 12 && len(k) == 1:
-				if len(v) != 8 {
-					return fmt.Errorf("counter %d has %d bytes", k[0], len(v))
-				}
-				rc.counters[k[0]] = binary.LittleEndian.Uint64(v)
-			}
-			return nil
-		})
+		rc, err := vf02ReadRawCnr(b)
 		if err != nil {
 			return err
 		}
-		for id, a := range attrs {
-			if o := rc.objs[id]; o != nil {
-				o.attrs = a
-			} else {
-				rc.orphans++
-			}
-		}
-		for _, o := range rc.objs {
-			if o.attrs == nil {
-				o.attrs = map[string][]byte{}
-			}
-		}
+		res[cnr] = rc
 		return nil
 	})
 	return res, err
+}
+
+// vf02ReadRawCnr reads one metadata bucket.
+func vf02ReadRawCnr(b *bbolt.Bucket) (*vf02RawCnr, error) {
+	rc := &vf02RawCnr{objs: map[oid.ID]*vf02RawObj{}, garbage: map[oid.ID][]byte{}, counters: map[byte]uint64{}}
+	attrs := map[oid.ID]map[string][]byte{}
+	err := b.ForEach(func(k, v []byte) error {
+		if len(k) == 0 {
+			return nil
+		}
+		switch {
+		case k[0] == 0 && len(k) == 33:
+			var id oid.ID
+			copy(id[:], k[1:])
+			rc.objs[id] = &vf02RawObj{}
+		case k[0] == 3 && len(k) > 34:
+			var id oid.ID
+			copy(id[:], k[1:33])
+			a, val, ok := bytes.Cut(k[33:], []byte{0})
+			if !ok {
+				return fmt.Errorf("attribute key without delimiter: %x", k)
+			}
+			if attrs[id] == nil {
+				attrs[id] = map[string][]byte{}
+			}
+			attrs[id][string(a)] = bytes.Clone(val)
+		case k[0] == 4 && len(k) == 1:
+			rc.removed = true
+		case k[0] == 5 && len(k) == 33:
+			var id oid.ID
+			copy(id[:], k[1:])
+			rc.garbage[id] = bytes.Clone(v)
+		case k[0] >= 6 && k[0] <= 12 && len(k) == 1:
+			if len(v) != 8 {
+				return fmt.Errorf("counter %d has %d bytes", k[0], len(v))
+			}
+			rc.counters[k[0]] = binary.LittleEndian.Uint64(v)
+		}
+		return nil
+	})
+	if err != nil {
+		return nil, err
+	}
+	for id, a := range attrs {
+		if o := rc.objs[id]; o != nil {
+			o.attrs = a
+		} else {
+			rc.orphans++
+		}
+	}
+	for _, o := range rc.objs {
+		if o.attrs == nil {
+			o.attrs = map[string][]byte{}
+		}
+	}
+	return rc, nil
 }
 
 func (o *vf02RawObj) phy() bool   { return string(o.attrs[object.FilterPhysical]) == "1" }
@@ -129,6 +140,43 @@ func (o *vf02RawObj) parent() (oid.ID, bool) {
 		return oid.ID{}, false
 	}
 	return oid.ID(v), true
+}
+
+// chainParent resolves the parent of an indexed split-chain member that carries no parent
+// header itself (middle parts): the parent named by any indexed sibling with the same first
+// ID (V2) or split ID (V1).  Absent addresses have no attributes, hence no chain parent.
+func (rc *vf02RawCnr) chainParent(id oid.ID) (oid.ID, bool) {
+	if rc == nil {
+		return oid.ID{}, false
+	}
+	o := rc.objs[id]
+	if o == nil {
+		return oid.ID{}, false
+	}
+	if _, ok := o.parent(); ok {
+		return oid.ID{}, false
+	}
+	var ids []oid.ID
+	for sid := range rc.objs {
+		ids = append(ids, sid)
+	}
+	sort.Slice(ids, func(i, j int) bool { return bytes.Compare(ids[i][:], ids[j][:]) < 0 })
+	for _, attr := range []string{object.FilterFirstSplitObject, object.FilterSplitID} {
+		val, ok := o.attrs[attr]
+		if !ok {
+			continue
+		}
+		for _, sid := range ids {
+			sib := rc.objs[sid]
+			if sv, ok := sib.attrs[attr]; ok && bytes.Equal(sv, val) {
+				if p, ok := sib.parent(); ok {
+					return p, true
+				}
+			}
+		}
+		return oid.ID{}, false
+	}
+	return oid.ID{}, false
 }
 
 // vf02Expect is what the statement demands for one container, recounted from the raw state.
@@ -267,8 +315,9 @@ type vf02Op struct {
 	tgts           []string // pre-state of the targets of the tombstones being put
 	par            []string // pre-state of the parents (2 levels) of the touched objects
 	tomb           bool
-	tombNonRegular bool // a tombstone being put targets a stored non-REGULAR object
-	tombDupTarget  bool // two tombstones of one batch share the target
+	tombNonRegular bool     // a tombstone being put targets a stored non-REGULAR object
+	inBatch        []string // relations between the elements of one batch (evidence only)
+	decidedInBatch bool     // the shape differs from what the state before the batch suggests (evidence only)
 }
 
 func (o vf02Op) String() string {
@@ -288,21 +337,22 @@ func (o vf02Op) String() string {
 }
 
 type vf02Run struct {
-	t     *testing.T
-	r     *verifkit.Run
-	path  string
-	db    *DB
-	es    *vf02Epoch
-	u     *vf02Universe
-	hist  int
-	ops   []vf02Op
-	drift map[string]int64  // last seen drift per container/counter
-	cause map[string]string // history shape of the step that last enlarged a latent discrepancy
-	taint map[string]string // container/group -> first executed step shape with known mis-accounting
-	clean bool              // workload avoids the shapes with known mis-accounting
-	curCi int               // container being compared
-	raw   map[cid.ID]*vf02RawCnr
-	nviol int
+	t         *testing.T
+	r         *verifkit.Run
+	path      string
+	db        *DB
+	es        *vf02Epoch
+	u         *vf02Universe
+	hist      int
+	ops       []vf02Op
+	drift     map[string]int64  // last seen drift per container/counter
+	cause     map[string]string // history shape of the step that last enlarged a latent discrepancy
+	taint     map[string]string // container/group -> first executed step shape with known mis-accounting
+	clean     bool              // workload avoids the shapes with known mis-accounting
+	flatBatch bool              // annotate: classify all elements of a batch against the state before the batch (evidence only)
+	curCi     int               // container being compared
+	raw       map[cid.ID]*vf02RawCnr
+	nviol     int
 }
 
 func vf02ErrClass(err error) string {
@@ -317,23 +367,80 @@ func TestVerif_C02(t *testing.T) {
 	r := verifkit.Start(t, "C02", "exploration")
 	defer r.Finish()
 	defer debug.SetGCPercent(debug.SetGCPercent(400))
-	r.SetRule("seeded histories of 40-120 steps on a real meta.DB (duplicate puts, PutBatch, objects with parent headers, tombstones of stored/absent/child/virtual targets, " +
+	r.SetRule("seeded histories of 40-120 steps on a real meta.DB (duplicate puts, PutBatch incl. the same object twice / a tombstone or lock with its target / several children of one parent in one batch, objects with parent headers, tombstones of stored/absent/child/virtual targets, " +
 		"repeated and redundant-then-default garbage marks, revivals, random and GC-like deletions incl. a parent through its last child, container removal/cleanup, reopen); " +
 		"one evaluation = one step followed by ObjectCounters + GetContainerInfo of every container vs a recount from the raw bbolt layout; " +
-		"distinct = distinct (operation kind, kind of touched object, pre-state class of the touched address) triples")
+		"distinct = distinct (operation kind, kind of touched object, pre-state class of the touched address) triples; the elements of a batch are classified in batch order")
 	nHist := r.Pick(150, 3000)
 	if v := os.Getenv("VERIF_C02_HISTORIES"); v != "" { // development knob
 		fmt.Sscan(v, &nHist)
 	}
+	if p := os.Getenv("VERIF_REPLAY"); p != "" {
+		// re-run the recorded steps of one violating history (universe of the same seed)
+		h, ops, err := vf02LoadReplay(p)
+		if err != nil {
+			r.Inconclusive("cannot use replay file: " + err.Error())
+			return
+		}
+		vf02History(t, r, h, ops)
+		return
+	}
 	for h := 0; h < nHist; h++ {
-		vf02History(t, r, h)
+		vf02History(t, r, h, nil)
 	}
 	if r.Counter("comparisons") == 0 {
 		r.Inconclusive("nothing compared")
 	}
 }
 
-func vf02History(t *testing.T, r *verifkit.Run, h int) {
+// vf02LoadReplay reads the history number and the executed steps out of a replay file
+// written by this monitor ("ops": the String() form of every step).
+func vf02LoadReplay(path string) (int, []vf02Op, error) {
+	b, err := os.ReadFile(path)
+	if err != nil {
+		return 0, nil, err
+	}
+	var doc struct {
+		Case struct {
+			History int      `json:"history"`
+			Ops     []string `json:"ops"`
+		} `json:"case"`
+	}
+	if err := json.Unmarshal(b, &doc); err != nil {
+		return 0, nil, err
+	}
+	if len(doc.Case.Ops) == 0 {
+		return 0, nil, errors.New("no steps recorded")
+	}
+	var ops []vf02Op
+	for _, s := range doc.Case.Ops {
+		i, j, k := strings.IndexByte(s, '('), strings.IndexByte(s, ')'), strings.IndexByte(s, '[')
+		if i < 0 || j < i || k < j {
+			return 0, nil, fmt.Errorf("malformed step %q", s)
+		}
+		op := vf02Op{Kind: s[:i]}
+		args, mid := s[i+1:j], s[j+1:k]
+		if strings.Contains(args, ".") {
+			op.Slots = strings.Split(args, ",")
+			args = op.Slots[0]
+		}
+		if _, err := fmt.Sscanf(args, "c%d", &op.Cnr); err != nil {
+			return 0, nil, fmt.Errorf("malformed step %q", s)
+		}
+		switch {
+		case strings.HasPrefix(mid, ":"):
+			op.Mark = mid[1:]
+		case strings.HasPrefix(mid, "="):
+			if _, err := fmt.Sscan(mid[1:], &op.Epoch); err != nil {
+				return 0, nil, fmt.Errorf("malformed step %q", s)
+			}
+		}
+		ops = append(ops, op)
+	}
+	return doc.Case.History, ops, nil
+}
+
+func vf02History(t *testing.T, r *verifkit.Run, h int, fixed []vf02Op) {
 	rng := r.Rand("history", h)
 	dir, err := os.MkdirTemp("", "vf02-")
 	if err != nil {
@@ -346,9 +453,17 @@ func vf02History(t *testing.T, r *verifkit.Run, h int) {
 	defer func() { x.db.Close() }()
 	x.raw = map[cid.ID]*vf02RawCnr{}
 	steps := 40 + rng.IntN(81)
+	if fixed != nil {
+		steps = len(fixed)
+	}
 	r.Count("histories", 1)
 	for i := 0; i < steps; i++ {
-		op := x.genOp(rng, i)
+		var op vf02Op
+		if fixed != nil {
+			op = fixed[i]
+		} else if r.Guard(map[string]any{"history": h, "step": i, "phase": "draw next step"}, func() { op = x.genOp(rng, i) }) {
+			return
+		}
 		desc := map[string]any{"history": h, "step": i, "op": op}
 		if r.Guard(desc, func() { x.exec(op) }) {
 			return
@@ -407,15 +522,10 @@ func (x *vf02Run) genAny(rng *rand.Rand, step int) vf02Op {
 		w = rng.IntN(52)
 	}
 	switch {
-	case w < 46:
+	case w < 40:
 		return vf02Op{Kind: "put", Cnr: ci, Slots: []string{putable()}}
 	case w < 52:
-		n := 2 + rng.IntN(3)
-		var l []string
-		for i := 0; i < n; i++ {
-			l = append(l, putable())
-		}
-		return vf02Op{Kind: "putbatch", Cnr: ci, Slots: l}
+		return vf02Op{Kind: "putbatch", Cnr: ci, Slots: x.genBatch(rng, ci)}
 	case w < 66:
 		mk := "default"
 		if rng.IntN(5) < 2 {
@@ -439,6 +549,147 @@ func (x *vf02Run) genAny(rng *rand.Rand, step int) vf02Op {
 	}
 }
 
+// family lists the putable members of the object whose (virtual) parent is p: the holders
+// of a parent header naming p (directly or through a nested parent) and the parts of the
+// same split chain that carry no parent header.
+func (x *vf02Run) family(ci int, p oid.ID) []*vf02Slot {
+	sl := x.u.slots[ci]
+	in := map[oid.ID]bool{}
+	firsts := map[oid.ID]bool{}
+	splits := map[string]bool{}
+	for _, s := range sl {
+		anc := s.par
+		for lvl := 0; !anc.IsZero() && lvl < 2; lvl++ {
+			if anc == p {
+				in[s.id] = true
+				if !s.first.IsZero() {
+					firsts[s.first] = true
+				}
+				if s.split != "" {
+					splits[s.split] = true
+				}
+			}
+			ps := x.u.slot(ci, anc)
+			if ps == nil {
+				break
+			}
+			anc = ps.par
+		}
+	}
+	var res []*vf02Slot
+	for _, s := range sl {
+		if s.obj == nil {
+			continue
+		}
+		if in[s.id] || firsts[s.id] || (!s.first.IsZero() && firsts[s.first]) || (s.split != "" && splits[s.split]) {
+			res = append(res, s)
+		}
+	}
+	return res
+}
+
+// genBatch draws the elements of a PutBatch.  Besides independent elements it produces the
+// shapes in which the elements of one batch interact: the same object more than once, a
+// tombstone/lock together with its target (or with members of its virtual target) in either
+// order, several children of one parent.
+func (x *vf02Run) genBatch(rng *rand.Rand, ci int) []string {
+	sl := x.u.slots[ci]
+	var direct, assocs, vparents []*vf02Slot
+	for _, s := range sl {
+		switch {
+		case s.obj != nil && (s.typ == object.TypeTombstone || s.typ == object.TypeLock):
+			assocs = append(assocs, s)
+			direct = append(direct, s)
+		case s.obj != nil:
+			direct = append(direct, s)
+		case s.Kind == "vparent":
+			vparents = append(vparents, s)
+		}
+	}
+	rnd := func(l []*vf02Slot) *vf02Slot { return l[rng.IntN(len(l))] }
+	// every second time prefer addresses that carry a garbage mark right now (the put of such
+	// an address is where the accounting of a put goes wrong)
+	hot := func(l []*vf02Slot) *vf02Slot {
+		if rc := x.raw[x.u.cnrs[ci]]; rc != nil && rng.IntN(2) == 0 {
+			var m []*vf02Slot
+			for _, s := range l {
+				if _, ok := rc.garbage[s.id]; ok {
+					m = append(m, s)
+				}
+			}
+			if len(m) > 0 {
+				return rnd(m)
+			}
+		}
+		return rnd(l)
+	}
+	var l []*vf02Slot
+	switch v := rng.IntN(100); {
+	case v < 30: // independent elements
+		for n := 2 + rng.IntN(3); n > 0; n-- {
+			l = append(l, rnd(direct))
+		}
+	case v < 50: // the same object more than once
+		l = append(l, hot(direct))
+		for n := rng.IntN(3); n > 0; n-- {
+			l = append(l, rnd(direct))
+		}
+		l = append(l, l[rng.IntN(len(l))])
+		if rng.IntN(3) == 0 {
+			l = append(l, l[rng.IntN(len(l))])
+		}
+	case v < 78: // tombstone/lock and what it aims at
+		a := rnd(assocs)
+		var rel []*vf02Slot
+		if t := x.u.slot(ci, a.target); t != nil && t.obj != nil {
+			rel = append(rel, t)
+		} else if t != nil {
+			if fam := x.family(ci, t.id); len(fam) > 0 {
+				rel = append(rel, rnd(fam))
+				if rng.IntN(2) == 0 {
+					rel = append(rel, rnd(fam))
+				}
+			}
+		}
+		if len(rel) == 0 || rng.IntN(4) == 0 {
+			rel = append(rel, rnd(direct))
+		}
+		if rng.IntN(2) == 0 {
+			l = append(append(l, a), rel...)
+		} else {
+			l = append(append(l, rel...), a)
+		}
+		if rng.IntN(4) == 0 { // a second tombstone/lock, often of the same target
+			b := rnd(assocs)
+			for _, c := range assocs {
+				if c != a && c.target == a.target && rng.IntN(2) == 0 {
+					b = c
+				}
+			}
+			l = append(l, b)
+		}
+		if rng.IntN(4) == 0 {
+			l = append(l, l[rng.IntN(len(l))])
+		}
+	default: // several members of one parent
+		fam := x.family(ci, hot(vparents).id)
+		if len(fam) == 0 {
+			fam = direct
+		}
+		for n := 2 + rng.IntN(2); n > 0; n-- {
+			l = append(l, rnd(fam))
+		}
+		if rng.IntN(3) == 0 {
+			l = append(l, rnd(direct))
+		}
+	}
+	var names []string
+	for _, s := range l {
+		names = append(names, s.Name)
+	}
+	return names
+}
+
 func (x *vf02Run) slotByName(ci int, name string) *vf02Slot {
 	for _, s := range x.u.slots[ci] {
 		if s.Name == name {
@@ -448,14 +699,76 @@ func (x *vf02Run) slotByName(ci int, name string) *vf02Slot {
 	panic("verif harness: unknown slot " + name)
 }
 
-// annotate records the pre-state classes of everything the step is going to touch.
+var errVf02Rollback = errors.New("verif: dry run of a batch, always rolled back")
+
+func vf02NonCritical(err error) bool {
+	return errors.Is(err, apistatus.ErrObjectAlreadyRemoved) || errors.Is(err, ErrObjectIsExpired) || errors.Is(err, apistatus.ErrObjectLocked)
+}
+
+// batchStates returns, for every element of a PutBatch, the raw state of the container
+// right before that element is processed.  PutBatch applies its elements in order inside
+// one transaction, so an element sees what its predecessors in the same batch did (an
+// address put a moment ago, a tombstone that has just marked its target and the target's
+// children).  The states are obtained by applying the elements one by one with the package's
+// own put() inside a transaction that is always rolled back; they are used only to NAME the
+// shape of the step (pre-state classes), never to judge the counters.
+func (x *vf02Run) batchStates(ci int, slots []string) []*vf02RawCnr {
+	cnr := x.u.cnrs[ci]
+	res := make([]*vf02RawCnr, 0, len(slots))
+	epoch := x.es.e
+	err := x.db.boltDB.Update(func(tx *bbolt.Tx) error {
+		dead := false // a critical error: the real batch is rolled back as a whole
+		for _, n := range slots {
+			var rc *vf02RawCnr
+			if b := tx.Bucket(append([]byte{255}, cnr[:]...)); b != nil {
+				var err error
+				if rc, err = vf02ReadRawCnr(b); err != nil {
+					return err
+				}
+			}
+			res = append(res, rc)
+			if dead {
+				continue
+			}
+			if _, err := x.db.put(tx, x.slotByName(ci, n).obj, 0, epoch); err != nil && !vf02NonCritical(err) {
+				dead = true
+			}
+		}
+		return errVf02Rollback
+	})
+	if !errors.Is(err, errVf02Rollback) {
+		panic(fmt.Sprintf("verif harness: dry run of a batch: %v", err))
+	}
+	x.r.Count("batch_elements_classified_in_batch_order", len(slots))
+	return res
+}
+
+// annotate records the pre-state classes of everything the step is going to touch.  The
+// elements of a batch are classified in batch order, each against the state its
+// predecessors left behind (see batchStates).
 func (x *vf02Run) annotate(op *vf02Op) {
 	ci := op.Cnr
 	pre := x.raw[x.u.cnrs[ci]]
-	op.own, op.tgts, op.par, op.tomb, op.tombNonRegular, op.tombDupTarget = nil, nil, nil, false, false, false
-	parents := func(sl *vf02Slot) string {
+	op.own, op.tgts, op.par, op.tomb, op.tombNonRegular, op.inBatch = nil, nil, nil, false, false, nil
+	isPut := op.Kind == "put" || op.Kind == "putbatch"
+	parents := func(sl *vf02Slot, pre *vf02RawCnr) string {
 		d := ""
-		for p, lvl := sl.par, 0; !p.IsZero() && lvl < 2; lvl++ {
+		lvl := 0
+		p := sl.par
+		if p.IsZero() && isPut {
+			// a stored middle part of a split chain: the code resolves its parent through
+			// the siblings (exists() of a put consults it)
+			if cp, ok := pre.chainParent(sl.id); ok {
+				d += "~" + pre.prestate(cp)
+				op.par = append(op.par, pre.prestate(cp))
+				lvl++
+				p = oid.ID{}
+				if ps := x.u.slot(ci, cp); ps != nil {
+					p = ps.par
+				}
+			}
+		}
+		for ; !p.IsZero() && lvl < 2; lvl++ {
 			d += "^" + pre.prestate(p)
 			op.par = append(op.par, pre.prestate(p))
 			ps := x.u.slot(ci, p)
@@ -468,13 +781,21 @@ func (x *vf02Run) annotate(op *vf02Op) {
 	}
 	switch {
 	case len(op.Slots) > 0:
+		var states []*vf02RawCnr
+		if op.Kind == "putbatch" && !x.flatBatch {
+			states = x.batchStates(ci, op.Slots)
+		}
 		var parts []string
-		seenTargets := map[oid.ID]bool{}
-		for _, n := range op.Slots {
+		seen := map[oid.ID]int{}
+		for i, n := range op.Slots {
 			sl := x.slotByName(ci, n)
+			pre := pre
+			if states != nil {
+				pre = states[i]
+			}
 			d := sl.Kind + ":" + pre.prestate(sl.id)
 			op.own = append(op.own, pre.prestate(sl.id))
-			if (op.Kind == "put" || op.Kind == "putbatch") && (sl.typ == object.TypeTombstone || sl.typ == object.TypeLock) {
+			if isPut && (sl.typ == object.TypeTombstone || sl.typ == object.TypeLock) {
 				tk := "ghost"
 				ts := x.u.slot(ci, sl.target)
 				if ts != nil {
@@ -485,19 +806,29 @@ func (x *vf02Run) annotate(op *vf02Op) {
 				if sl.typ == object.TypeTombstone {
 					op.tomb = true
 					op.tgts = append(op.tgts, tp)
-					if seenTargets[sl.target] {
-						op.tombDupTarget = true
-					}
-					seenTargets[sl.target] = true
 					if ts != nil && ts.typ != object.TypeRegular && strings.HasPrefix(tp, "P") {
 						op.tombNonRegular = true
 					}
-					if op.Kind == "putbatch" {
-						op.tombDupTarget = true // batch members interact; not a clean shape
-					}
+				}
+				if _, ok := seen[sl.target]; ok {
+					op.inBatch = append(op.inBatch, "target-then-"+sl.Kind)
 				}
 			}
-			d += parents(sl)
+			if op.Kind == "putbatch" {
+				if seen[sl.id] > 0 {
+					op.inBatch = append(op.inBatch, "duplicate")
+				}
+				for id := range seen {
+					if o := x.u.slot(ci, id); o != nil && o.target == sl.id && (o.typ == object.TypeTombstone || o.typ == object.TypeLock) {
+						op.inBatch = append(op.inBatch, o.Kind+"-then-target")
+					}
+					if o := x.u.slot(ci, id); o != nil && id != sl.id && !o.par.IsZero() && o.par == sl.par {
+						op.inBatch = append(op.inBatch, "siblings")
+					}
+				}
+				seen[sl.id]++
+			}
+			d += parents(sl, pre)
 			parts = append(parts, d)
 		}
 		op.Pre = strings.Join(parts, ",")
@@ -505,7 +836,7 @@ func (x *vf02Run) annotate(op *vf02Op) {
 		for id := range pre.garbage {
 			op.own = append(op.own, pre.prestate(id))
 			if sl := x.u.slot(ci, id); sl != nil {
-				parents(sl)
+				parents(sl, pre)
 			}
 		}
 		if pre.removed {
@@ -537,6 +868,24 @@ func (x *vf02Run) exec(op vf02Op) {
 		first = x.slotByName(ci, op.Slots[0])
 	}
 	x.annotate(&op)
+	for _, rel := range op.inBatch {
+		x.r.Count("batch_shape_"+rel, 1)
+	}
+	if op.Kind == "putbatch" {
+		// evidence: how often the shape of a batch is decided by what an earlier element of
+		// the same batch did (classification against the state before the batch would differ)
+		flat := op
+		x.flatBatch = true
+		x.annotate(&flat)
+		x.flatBatch = false
+		if c, f := vf02Cause(op), vf02Cause(flat); c != f {
+			op.decidedInBatch = true
+			x.r.Count("batches_whose_shape_is_decided_inside_the_batch", 1)
+			if !strings.Contains(c, "|") {
+				x.r.Count("batches_with_in_batch_"+c, 1)
+			}
+		}
+	}
 	if cause := vf02Cause(op); !strings.Contains(cause, "|") {
 		// a shape with known mis-accounting is about to run: whatever the counters of this
 		// container show from now on may be its echo (errors cancel and resurface later)
@@ -662,6 +1011,9 @@ func (x *vf02Run) violationCause(cause, counter string, delta int64, what string
 		rep[k] = v
 	}
 	x.nviol++
+	if op.decidedInBatch {
+		x.r.Count("discrepancies_reported_at_batches_decided_inside_the_batch", 1)
+	}
 	x.r.Violation(key, fmt.Sprintf("history %d step %d %s: %s", x.hist, len(x.ops)-1, op.String(), what), rep)
 }
 
@@ -720,7 +1072,7 @@ func vf02Cause(op vf02Op) string {
 			return "reput-of-indexed-garbage-marked-object"
 		case has(op.own, absentMarked):
 			return "put-of-address-marked-while-absent"
-		case op.tomb && (op.tombDupTarget || has(op.tgts, func(p string) bool { return nonPhysical(p) || strings.ContainsAny(p, "mt") })):
+		case op.tomb && has(op.tgts, func(p string) bool { return nonPhysical(p) || strings.ContainsAny(p, "mt") }):
 			return "tombstone-of-nonphysical-or-already-marked-target"
 		case op.tombNonRegular:
 			return "tombstone-of-stored-non-regular-object"
@@ -731,6 +1083,18 @@ func vf02Cause(op vf02Op) string {
 		}
 		if len(op.par) > 0 {
 			s += "|parent=" + set(op.par)
+		}
+		if len(op.inBatch) > 0 { // relations between the elements of the batch
+			m := map[string]bool{}
+			var k []string
+			for _, rel := range op.inBatch {
+				if !m[rel] {
+					m[rel] = true
+					k = append(k, rel)
+				}
+			}
+			sort.Strings(k)
+			s += "|in-batch=" + strings.Join(k, "+")
 		}
 		return s + "|" + res
 	case "mark":
